@@ -90,7 +90,14 @@ Definition handle_ode (cmd : string) (args : list sexp) : option sexp :=
                             match tterms_of (nth s (st_rhs (ode_terms i)) []) with
                             | Some ts => A (str (flatten_with mag name (rhs_txt ts)))
                             | None => A "none"
-                            end) (seq 0 (i_nspec i))))
+                            end) (seq 0 (i_nspec i))
+                     ++ (* the wrapped temperature row, when there is one *)
+                        (if has_thermal i then
+                           [match tterms_of (nth (i_nspec i) (st_rhs (ode_terms i)) []) with
+                            | Some ts => A (str (flatten_with mag name (wrapped_txt ts)))
+                            | None => A "none"
+                            end]
+                         else [])))
         | _, _ => Some (err "bad ode input")
         end
     | _ => Some (err "bad args")
